@@ -6807,7 +6807,7 @@ int cg_elements_general_write(int fn, int B, int Z, int S,
     CGNS_ENUMT(ElementType_t) type;
     int i, elemsize;
     cgsize_t oldsize;
-    cgsize_t num, size, offset;
+    cgsize_t num, size, offset, new_offset;
     cgsize_t n, j, newsize, ElementDataSize;
     cgsize_t *oldelems, *newelems;
     CGNS_ENUMT(DataType_t) s_type;
@@ -7065,7 +7065,9 @@ int cg_elements_general_write(int fn, int B, int Z, int S,
             cgi_error("Error allocating new ParentElements data");
             return CG_ERROR;
         }
-        offset = start - section->range[0];
+        /* offset (saved before the range update) locates the old rows in the
+           new arrays; new_offset locates the rows of the written elements */
+        new_offset = start - section->range[0];
 
         for (n = 0; n < cnt*newsize; n++)
             newelems[n] = 0;
@@ -7076,7 +7078,7 @@ int cg_elements_general_write(int fn, int B, int Z, int S,
                 newelems[j++] = oldelems[num++];
         }
         for (i = 0; i < cnt; i++) {
-            j = i * newsize + offset;
+            j = i * newsize + new_offset;
             for (n = start; n <= end; n++)
                 newelems[j++] = 0;
         }
@@ -7102,7 +7104,7 @@ int cg_elements_general_write(int fn, int B, int Z, int S,
                 newelems[j++] = oldelems[num++];
         }
         for (i = 0; i < 2; i++) {
-            j = i * newsize + offset;
+            j = i * newsize + new_offset;
             for (n = start; n <= end; n++)
                 newelems[j++] = 0;
         }
@@ -7182,6 +7184,7 @@ int cg_poly_elements_general_write(int fn, int B, int Z, int S,
     CGNS_ENUMT(ElementType_t) type;
     int i, elemsize=2;
     cgsize_t s_range_size;
+    cgsize_t old_offset, new_offset;
     cgsize_t num, size, offset;
     cgsize_t n, j, newsize, ElementDataSize;
     cgsize_t *oldelems, *newelems;
@@ -7253,6 +7256,8 @@ int cg_poly_elements_general_write(int fn, int B, int Z, int S,
 
     elemsize = 2;
     offset  = start < section->range[0] ? section->range[0] - start : 0;
+    /* where the currently stored rows will sit in resized parent data */
+    old_offset = offset;
     /* current range size in file system */
     s_range_size = section->range[1] - section->range[0] + 1;
 
@@ -7704,18 +7709,20 @@ int cg_poly_elements_general_write(int fn, int B, int Z, int S,
             cgi_error("Error allocating new ParentElements data");
             return CG_ERROR;
         }
-        offset = start - section->range[0];
+        /* old_offset (saved before the range update) locates the old rows in
+           the new arrays; new_offset locates the rows of the written elements */
+        new_offset = start - section->range[0];
 
         for (n = 0; n < cnt*newsize; n++)
             newelems[n] = 0;
         oldelems = (cgsize_t *)section->parelem->data;
         for (num = 0, i = 0; i < cnt; i++) {
-            j = i * newsize + offset;
+            j = i * newsize + old_offset;
             for (n = 0; n < s_range_size; n++)
                 newelems[j++] = oldelems[num++];
         }
         for (i = 0; i < cnt; i++) {
-            j = i * newsize + offset;
+            j = i * newsize + new_offset;
             for (n = start; n <= end; n++)
                 newelems[j++] = 0;
         }
@@ -7736,12 +7743,12 @@ int cg_poly_elements_general_write(int fn, int B, int Z, int S,
                 newelems[n] = 0;
         oldelems = (cgsize_t *)section->parface->data;
         for (num = 0, i = 0; i < 2; i++) {
-            j = i * newsize + offset;
+            j = i * newsize + old_offset;
             for (n = 0; n < s_range_size; n++)
                 newelems[j++] = oldelems[num++];
         }
         for (i = 0; i < 2; i++) {
-            j = i * newsize + offset;
+            j = i * newsize + new_offset;
             for (n = start; n <= end; n++)
                 newelems[j++] = 0;
         }
